@@ -215,8 +215,12 @@ func VerifC14_Stream() {
 	opts := []StreamInterceptorOption{WithStreamRecvName("r"), WithStreamSendName("s"), WithStreamRecvLimiter(recvLim), WithStreamSendLimiter(sendLim)}
 	if custom {
 		opts = append(opts,
-			WithStreamServerResponseTypeClassifier(func(ctx context.Context, req interface{}, info *golangGrpc.StreamServerInfo, err error) ResponseType { return rtRecv }),
-			WithStreamClientResponseTypeClassifier(func(ctx context.Context, req interface{}, info *golangGrpc.StreamServerInfo, err error) ResponseType { return rtSend }),
+			WithStreamServerResponseTypeClassifier(func(ctx context.Context, req interface{}, info *golangGrpc.StreamServerInfo, err error) ResponseType {
+				return rtRecv
+			}),
+			WithStreamClientResponseTypeClassifier(func(ctx context.Context, req interface{}, info *golangGrpc.StreamServerInfo, err error) ResponseType {
+				return rtSend
+			}),
 			WithStreamRecvLimitExceededResponseClassifier(func(ctx context.Context, method string, req interface{}, l core.Limiter) (interface{}, codes.Code, error) {
 				return nil, codes.Unavailable, errors.New("recv busy")
 			}),
